@@ -260,6 +260,9 @@ func (versionSuite) Gen(r *Rng, i int, tier string) any {
 		if j < 3 {
 			c.Ops = append(c.Ops, vOp{Op: "res", A: con, B: act})
 		}
+		if j < 2 {
+			c.Ops = append(c.Ops, vOp{Op: "res2", A: con, B: act})
+		}
 	}
 	// tilde with a truncated requirement (prefix of the numbers)
 	{
@@ -356,6 +359,17 @@ func (versionSuite) Run(raw json.RawMessage) []Step {
 			steps = append(steps, Step{Line: "v.sat\t" + hx(op.A) + "\t" + hx(op.B), Go: out, Desc: fmt.Sprintf("ResolvePackageNameVersionPin(%q).SatisfiedBy(%q)", op.A, op.B), Tags: []string{fmt.Sprintf("sat:dep%d:%s", d, out)}, Trivial: out == "verr" || out == "err"})
 			// the check on the Go → Lean translator: the same call against Generated.Trans.satisfies (extract/trans.go)
 			steps = append(steps, Step{Line: "tv.sat\t" + hx(op.A) + "\t" + hx(op.B), Go: out, Desc: fmt.Sprintf("translated satisfies: ResolvePackageNameVersionPin(%q).SatisfiedBy(%q)", op.A, op.B), Tags: []string{"tv.sat"}, Trivial: out == "verr" || out == "err"})
+		case "res2":
+			// the constraint as the resolver applies it when SEVERAL candidates are on offer, and when the candidate was
+			// already selected earlier in the walk (see vResolveTwins)
+			p := apk.ResolvePackageNameVersionPin(op.A)
+			n, rv, d, pin := apk.VerifConstraintFields(p)
+			_, ov := goParse(op.B)
+			if n == "" || pin != "" || rv == "" || d == 0 || strings.HasPrefix(n, "!") || strings.HasPrefix(n, "zz-") || ov == "err" || strings.ContainsAny(n, "=<>~@ ") {
+				continue
+			}
+			out := vResolveTwins(n, op.A, op.B, rv)
+			steps = append(steps, Step{Line: "v.res2\t" + hx(op.A) + "\t" + hx(op.B), Go: out, Desc: fmt.Sprintf("two providers with one package version (providing %q at the candidate version and at the required version, both orders) and an already-selected candidate: %q against version %q", n, op.A, op.B), Tags: []string{fmt.Sprintf("res2:dep%d:%s", d, out)}})
 		case "res":
 			// the constraint as the RESOLVER applies it: three one-candidate universes in which the only way to
 			// succeed is that the candidate's version is accepted by the constraint
@@ -372,10 +386,39 @@ func (versionSuite) Run(raw json.RawMessage) []Step {
 	return steps
 }
 
+// vResolveTwins: (t) two providers zz-p1 / zz-p2 with the SAME package version, providing n at version v and at the
+// required version rv, listed in both orders; zz-app depends on con: it resolves iff the constraint accepts v or rv
+// (a verdict remembered per package version would let the first provider decide for both).
+// (s) the candidate n=v (not a leaf) is selected through an earlier world entry that depends on n without a version; a
+// later world entry depends on con: the resolution succeeds iff the constraint accepts v (the boundary version of a
+// strict operator must be refused on this path too).
+func vResolveTwins(n, con, v, rv string) string {
+	one := func(pkgs []rPkg, world []string) string {
+		out := goResolve([]rArch{{Arch: "x86_64", Indexes: []rIndex{{URI: "https://repo.test/os", Pkgs: pkgs}}}}, 0, world, false)
+		if strings.HasPrefix(out, "ok") {
+			return "ok"
+		}
+		return "err"
+	}
+	p1 := rPkg{Name: "zz-p1", Version: "1.0-r0", Provides: []string{n + "=" + v}}
+	p2 := rPkg{Name: "zz-p2", Version: "1.0-r0", Provides: []string{n + "=" + rv}}
+	app := rPkg{Name: "zz-app", Version: "1.0-r0", Deps: []string{con}}
+	t1 := one([]rPkg{p1, p2, app}, []string{"zz-app"})
+	t2 := one([]rPkg{p2, p1, app}, []string{"zz-app"})
+	sel := one([]rPkg{{Name: n, Version: v, Deps: []string{"zz-leaf"}}, {Name: "zz-leaf", Version: "1.0-r0"},
+		{Name: "zz-early", Version: "1.0-r0", Deps: []string{n}}, {Name: "zz-late", Version: "1.0-r0", Deps: []string{con}}}, []string{"zz-early", "zz-late"})
+	// the candidates the constraint accepts among the twins, per ResolvePackage (no pre-pass over the whole universe)
+	c1 := goResolveOne(rArch{Arch: "x86_64", Indexes: []rIndex{{URI: "https://repo.test/os", Pkgs: []rPkg{p1, p2}}}}, con)
+	c2 := goResolveOne(rArch{Arch: "x86_64", Indexes: []rIndex{{URI: "https://repo.test/os", Pkgs: []rPkg{p2, p1}}}}, con)
+	return "t=" + t1 + "," + t2 + ";s=" + sel + ";c=" + c1 + "/" + c2
+}
+
 // vResolveThrough runs three resolutions whose only candidate for constraint `con` (on name n) has version v:
-//   w: world [con], universe {n=v}
-//   d: world [zz-app], universe {n=v, zz-app depends on con}
-//   p: world [zz-app], universe {zz-prov=v provides n=v, zz-app depends on con}
+//
+//	w: world [con], universe {n=v}
+//	d: world [zz-app], universe {n=v, zz-app depends on con}
+//	p: world [zz-app], universe {zz-prov=v provides n=v, zz-app depends on con}
+//
 // and answers "ok"/"err" when they agree, the three verdicts otherwise.
 func vResolveThrough(n, con, v string) string {
 	one := func(pkgs []rPkg, world []string) string {
